@@ -528,19 +528,25 @@ def writer_rewriter_rule(ctx, prog, rid):
         raise AnalysisError("anchor vanished: ChartXmlWriter / SeriesXmlRewriterFactory")
 
     def table(f):
+        """the chart-type -> class table the function looks `chart_type` up in, wherever it is defined (inline literal, local,
+        module constant), with the default of a `.get(k, default)` lookup"""
+        from sa import paths as P_
+        from sa.pysrc import ClassRef, EnumMember
+
+        env = P_.local_env(prog, f)
         for n in ast.walk(f.node):
-            if isinstance(n, ast.Dict) and len(n.keys) >= 3:
-                t = {}
-                for k, v in zip(n.keys, n.values):
-                    kk = dotted(k)
-                    if kk is None or dotted(v) is None:
-                        return None, None
-                    t[kk.split(".")[-1]] = dotted(v)
-                default = None
-                for c in ast.walk(f.node):
-                    if isinstance(c, ast.Call) and isinstance(c.func, ast.Attribute) and c.func.attr == "get" and c.func.value is n and len(c.args) == 2:
-                        default = dotted(c.args[1])
-                return t, default
+            recv, default = None, None
+            if isinstance(n, ast.Call) and isinstance(n.func, ast.Attribute) and n.func.attr == "get" and len(n.args) in (1, 2):
+                recv = n.func.value
+                dv = prog.const(n.args[1], f.module, env) if len(n.args) == 2 else None
+                default = dv.cls.name if isinstance(dv, ClassRef) else None
+            elif isinstance(n, ast.Subscript) and isinstance(n.ctx, ast.Load):
+                recv = n.value
+            if recv is None:
+                continue
+            v = prog.const(recv, f.module, env)
+            if isinstance(v, dict) and len(v) >= 3 and all(isinstance(k, EnumMember) for k in v) and all(isinstance(x, ClassRef) for x in v.values()):
+                return {k.name: x.cls.name for k, x in v.items()}, default
         return None, None
 
     tw, _ = table(fw)
@@ -619,9 +625,10 @@ def run(ctx):
     vp = cs.methods.get("_val_pt_xml") if cs else None
     if vp is not None:
         for n in ast.walk(vp.node):
-            if isinstance(n, ast.For) and isinstance(n.iter, ast.Call) and dotted(n.iter.func) == "enumerate" \
-                    and (dotted(n.iter.args[0]) or "").startswith("self._series."):
-                pairs.setdefault("values_ref", set()).add(dotted(n.iter.args[0]).split(".")[-1])
+            if isinstance(n, (ast.For, ast.comprehension)):   # statement loop or "".join(... for ...)
+                it_ = n.iter.args[0] if isinstance(n.iter, ast.Call) and dotted(n.iter.func) == "enumerate" and n.iter.args else n.iter
+                if (dotted(it_) or "").startswith("self._series."):
+                    pairs.setdefault("values_ref", set()).add(dotted(it_).split(".")[-1])
     if not pairs or any(len(v) != 1 for v in pairs.values()):
         ctx.error("pptx.chart.xmlwriter", "reference/data pairing not recognised: %s" % pairs)
     pairs = {k: next(iter(v)) for k, v in pairs.items() if len(v) == 1}
